@@ -207,6 +207,27 @@ def run_tlc(module: str, cfg_text: str, *, name: str, workers: int = 1, env: dic
     return res
 
 
+def run_apalache(module: str, *, init: str, nxt: str, inv: str, length: int, name: str, timeout: int = 900) -> str:
+    """Bounded symbolic check with Apalache (used for inductive invariants: init=IndInv, length=1).  Returns the command; raises MachineryError
+    unless Apalache reports NoError."""
+    wd = WORK / name
+    shutil.rmtree(wd, ignore_errors=True)
+    wd.mkdir(parents=True, exist_ok=True)
+    cmd = ["apalache-mc", "check", f"--init={init}", f"--next={nxt}", f"--inv={inv}", f"--length={length}", f"--out-dir={wd}", str(SPEC / f"{module}.tla")]
+    e = dict(os.environ)
+    e.pop("JAVA_TOOL_OPTIONS", None)
+    try:
+        p = subprocess.run(cmd, cwd=str(wd), env=e, capture_output=True, text=True, timeout=timeout)
+    except (subprocess.TimeoutExpired, FileNotFoundError) as ex:
+        raise MachineryError(f"Apalache did not finish: {' '.join(cmd)}: {ex}") from ex
+    out = p.stdout + "\n" + p.stderr
+    (wd / "apalache.out").write_text(out)
+    if "The outcome is: NoError" not in out:
+        tail = " | ".join(x for x in out.splitlines() if "E@" in x or "outcome" in x)[:400]
+        raise MachineryError(f"Apalache did not establish {inv} from {init} ({module}): {tail}")
+    return "apalache-mc " + " ".join(cmd[1:-1]) + f" spec/{module}.tla"
+
+
 def write_json(name: str, fname: str, obj) -> Path:
     wd = WORK / name
     wd.mkdir(parents=True, exist_ok=True)
